@@ -70,6 +70,32 @@ def stn_mirror(check, proj):
     f = proj.func("modeldisc.fvm1d.calc_grad")
     l, h, v = D.stn.interior(g)
     _decide(check, "STN-MIRROR", f.qualname, f.loc(), A, mirror_rel(D, v, "face"), -v, "face gradients change sign under the reflection (interior relation)", key="grad-odd")
+    # periodic seam: the closure of calc_bc_grad at faces 0 and n, in absolute indices
+    # (cell k -> n-1-k, face k -> n-k, positions negated, domain length invariant)
+    D = Disc1D(proj, periodic=True)
+    A = D.alg
+    D.fvm("calc_grad")
+    D.fvm("calc_bc_grad")
+    g = D.so.attrs["grad"][0]
+    fb = proj.func("modeldisc.fvm1d.calc_bc_grad")
+
+    def mirror_abs(val):
+        def m(name, kind, idx):
+            if kind != "abs":
+                return None
+            if name.startswith("d"):
+                return D.stn.absol(name, NLin(1 - idx.a, -1 - idx.b))
+            if name == "xc":
+                return -D.stn.absol(name, NLin(1 - idx.a, -1 - idx.b))
+            if name == "xf":
+                return -D.stn.absol(name, NLin(1 - idx.a, -idx.b))
+            return None
+        return D.subst_names(val, m)
+    g0, gn = D.stn.elem(g, 0), D.stn.elem(g, N)
+    _decide(check, "STN-MIRROR", fb.qualname, fb.loc(), A, mirror_abs(g0), -gn,
+            "the periodic closure of the face gradient at face 0 is the mirror twin of the one at face n (cells k -> n-1-k, positions negated): the junction spacing is reflection invariant", key="seam-grad-0")
+    _decide(check, "STN-MIRROR", fb.qualname, fb.loc(), A, mirror_abs(gn), -g0,
+            "the periodic closure of the face gradient at face n is the mirror twin of the one at face 0", key="seam-grad-n")
     # residual: res[c] = -(F[c+1]-F[c])/vol[c] is even for F odd  (F -> -F(n-f))
     D = Disc1D(proj, periodic=True)
     A = D.alg
